@@ -81,6 +81,14 @@ def warm(tier):
     env.quiet()
 
 
+
+def setup_extra():
+    from .. import cliflow
+
+    for part in (("asm", 0), ("hand", 1)):
+        cliflow.exact_flow(Result(), {}, 0, part)
+
+
 def plan(tier, seed):
     jobs = []
     for P in (1, 2, 3, 4):
